@@ -115,3 +115,9 @@ pub fn peer_key_raw(k: &KBucketKey<PeerId>) -> B32 {
 pub fn short(b: &[u8]) -> String {
     vmon::hex(b)
 }
+
+/// random byte string of length in [0, max)
+pub fn rbytes(rng: &mut Rng, max: usize) -> Vec<u8> {
+    let n = if max == 0 { 0 } else { rng.usize(max) };
+    rng.bytes(n)
+}
